@@ -190,10 +190,14 @@ def nilSpecShapeFacts : Bool :=
 /-! ### the built-in parrots as data -/
 
 /-- the `Spec` of a row of the regenerated parrot table (a fresh value: nothing pinned, no token, nothing suppressed) -/
-def ofParrot (p : String × Nat × Nat × Nat × Bool × Bool × Bool) : Spec :=
+def ofParrot (p : String × Nat × Nat × Nat × Bool × Bool × Bool × Nat × Nat) : Spec :=
   { scidLen := p.2.1, dcidLen := p.2.2.1, hasQTP := p.2.2.2.2.2.1,
     iscid := if p.2.2.2.2.1 then some [] else none, suppIscid := false, ksPinned := false, tokLen := 0 }
 
 def builtins : List Spec := Uquic.Gen.Dial.parrots.map ofParrot
+
+/-- (initial_max_streams_uni, initial_max_streams_bidi) a parrot row advertises -/
+def parrotStreams (p : String × Nat × Nat × Nat × Bool × Bool × Bool × Nat × Nat) : Nat × Nat :=
+  (p.2.2.2.2.2.2.2.1, p.2.2.2.2.2.2.2.2)
 
 end Uquic.Model.UQuic.Dial
